@@ -307,21 +307,31 @@ func (e *Exec) evalBuiltin(name string, call *ast.CallExpr, st *State, ctx *Ctx)
 		return nil
 	case "make":
 		t := e.typeOf(call, ctx)
+		var szs []string
 		for _, a := range call.Args[1:] {
-			e.eval(a, st, ctx)
+			szs = append(szs, e.eval(a, st, ctx))
+		}
+		if _, isSlice := t.Underlying().(*types.Slice); isSlice && len(szs) > 0 {
+			// make([]T, len[, cap]) panics at run time unless 0 <= len <= cap
+			e.nopanic(st, call.Pos(), "make-len", "(>= "+szs[0]+" 0)", exprString(call))
+			if len(szs) == 2 {
+				e.nopanic(st, call.Pos(), "make-cap", "(>= "+szs[1]+" "+szs[0]+")", exprString(call))
+			}
+			n := szs[0]
+			switch {
+			case isTreeList(t):
+				return []string{"(VList (lrepeat VNil " + n + "))"}
+			case isStringList(t) && n == "0":
+				return []string{"(Slice SNil)"}
+			case isRefList(t) && n == "0":
+				return []string{"RNil"}
+			}
 		}
 		switch {
 		case isTreeMap(t):
 			return []string{"(VMap emptyM)"}
 		case isRefMap(t):
 			return []string{"emptyRM"}
-		case isTreeList(t):
-			if len(call.Args) == 2 {
-				n := e.eval(call.Args[1], st, ctx)
-				e.nopanic(st, call.Pos(), "make-len", "(>= "+n+" 0)", exprString(call))
-				return []string{"(VList (lrepeat VNil " + n + "))"}
-			}
-			e.unsupported(call.Pos(), "make([]any, len, cap)")
 		}
 		e.note("make(" + types.TypeString(t, shortQual) + ") modelled as an opaque value")
 		return []string{e.fresh(st, "make", sortOf(t))}
